@@ -4,7 +4,8 @@ Decided: the shape of the permuted ordering key, the for_upload filter, a
 classified sweep of every get_servers_for_psi call site, the upload filter of
 the mutable publisher, both upload_permitted implementations and the wiring of
 the grid-manager verifier into the server objects, and that the verifier's verdict is
-computed from each certificate's own fields (DESIGN.md section 5, C32)."""
+computed from each certificate's own fields, and that the factory hands out that certificate-checking predicate
+whenever grid-manager keys are configured (DESIGN.md section 5, C32)."""
 from sa.h import *
 from sa.rules.C33 import _checker as _c33_checker
 
@@ -15,7 +16,8 @@ EXPLANATION = (
     "hashutil.permute_server_hash(a, b) = sha1(a + b).digest() in that operand order (compat-frozen); (2) on every "
     "path where for_upload is true the sorted list S was filtered by `if srv.upload_permitted()`; (3) every call "
     "site / method-value use of get_servers_for_psi in the package is classified (hand table, 7 sites): the "
-    "immutable uploader passes for_upload=True, the mutable publisher's two sites only feed self.full_serverlist, "
+    "immutable uploader passes for_upload=True and the candidate servers it gives to _create_trackers derive from that "
+    "call's result and from no other call (pure builtins and methods of locals aside), the mutable publisher's two sites only feed self.full_serverlist, "
     "which is read only by Publish.update_goal, the rest are read-only consumers; (4) Publish.update_goal adds a "
     "(server, shnum) placement only for servers taken from a list filled under the fact server.upload_permitted() "
     "for the loop variable of the walk over self.full_serverlist; (5) every upload_permitted implementation "
@@ -28,7 +30,14 @@ EXPLANATION = (
     "value derived from that certificate and one derived from the public_key parameter - derivation is followed "
     "through the predicate's own assignments per path, so a value captured from the factory (e.g. last bound in the "
     "factory's signature-checking loop), computed before the loop, or left over from an earlier iteration does not "
-    "count. Which field is compared, strictness and the per-call clock are C33's clauses. "
+    "count; (7) create_grid_manager_verifier hands out anything other than that certificate-checking predicate (the "
+    "always-True `lambda: True`, None - which upload_permitted reads as `no verifier` -, any other value, or falling "
+    "off its end) only on paths that established that its `keys` parameter is empty (`not keys`, `len(keys) == 0`, ... "
+    "through hoisted temporaries and truthiness-preserving copies), and `keys` is not re-bound to anything else: with "
+    "keys configured the verdict is always the per-certificate one of (6). "
+    "Which field is compared, strictness (`expires > now` vs `>=`) and the per-call clock are C33's clauses, as are "
+    "what the kept list holds (signature-checked certificates only) and that the checking predicate is not handed "
+    "out when no keys are configured (that direction only refuses uploads). "
     "Undecided: SHA-1 itself, Python's tuple ordering / sort stability, the truth of what servers announce as "
     "their permutation seed.")
 TECHNIQUE = ("static analysis: normal-form agreement of the sort key, CFG must-precede gates for the upload filter, "
@@ -51,6 +60,11 @@ SITES = {
     "allmydata.web.check_results:ResultsBase._render_results": "read",
     "allmydata.immutable.offloaded:Helper._check_chk": "read",      # method value given to the CHK checker
 }
+
+
+# calls that produce no server objects of their own (they only rearrange / measure their arguments)
+_PURE_BUILTINS = {"list", "tuple", "sorted", "reversed", "set", "frozenset", "len", "min", "max", "int", "range", "enumerate",
+                  "iter", "sum", "abs"}
 
 
 # ----------------------------------------------------------------- helpers
@@ -507,6 +521,29 @@ def run(ctx: Context):
             if kind == "upload-flag":
                 r.require(is_call and passes_flag, f, f.loc(nd), "the uploader asks for the server list without "
                           "for_upload=True (%s): shares would be placed on servers without a valid certificate" % src(f, nd))
+                if is_call and passes_flag:
+                    # ... and the servers it builds share trackers for come from that filtered list only
+                    tcalls = [c for c in calls_in_func(f) if call_tail(c) == "_create_trackers"]
+                    if not tcalls:
+                        raise AnchorVanished("%s no longer builds its trackers through _create_trackers" % short(f))
+                    local = set(all_defs(f)) - set(f.params)
+                    for tc in tcalls:
+                        cand = arg(tc, 0, "candidate_servers")
+                        if cand is None:
+                            raise AnchorVanished("%s: _create_trackers call without candidate servers" % short(f))
+                        r.site(f, tc, "trackers built from")
+                        feeding = calls_feeding(f, cand)
+                        other = [c for c in feeding if c is not nd
+                                 and not (isinstance(c.func, ast.Name) and c.func.id in _PURE_BUILTINS)
+                                 and not (isinstance(c.func, ast.Attribute) and isinstance(c.func.value, ast.Name)
+                                          and c.func.value.id in local)]
+                        r.require(any(c is nd for c in feeding), f, f.loc(tc), "the servers given to _create_trackers (%s) do "
+                                  "not come from the for_upload=True server list: shares would be offered to servers "
+                                  "without a valid certificate" % src(f, cand))
+                        for c in other:
+                            r.violation(f, f.loc(tc), "the servers given to _create_trackers (%s) also come from %s, not only "
+                                        "from the for_upload=True server list: shares would be offered to servers without a "
+                                        "valid certificate" % (src(f, cand), src(f, c)))
             elif kind == "upload-filtered" and is_call and not passes_flag:
                 # the unfiltered list may only go to self.full_serverlist (filtered later by update_goal)
                 fnm = FlowNorm(f)
@@ -863,3 +900,67 @@ def run(ctx: Context):
                         break
         if not permits:
             raise AnchorVanished("%s never returns True" % short(chk))
+
+    # -- 7. which predicate the factory hands out --------------------------
+    with ctx.rule("C32.7", "R1", "create_grid_manager_verifier hands out something other than the certificate-checking "
+                  "predicate (lambda: True, None, falling off the end, ...) only on paths that established that `keys` is "
+                  "empty: with grid-manager keys configured the verdict is the per-certificate one", expected=2) as r:
+        fn = idx.func(GM_CREATE)
+        chk = _c33_checker(fn)
+        cfg = fn.cfg()
+        fnorm = FlowNorm(fn)
+        if "keys" not in fn.params:
+            raise AnchorVanished("create_grid_manager_verifier has no keys parameter")
+        # the keys parameter itself or a copy with the same truthiness / length
+        same = r"(?:(?:list|tuple|set|frozenset|sorted)\()*keys\)*"
+        KEYS = re.compile("^(?:%s|len\\(%s\\))$" % (same, same))
+        LEN = re.compile("^len\\(%s\\)$" % same)
+        for x in cfg.find(stores("keys")):
+            val = assign_value(x, "keys")
+            vs = fnorm.norm(x, val) if val is not None else None
+            r.require(vs is not None and x.kind == "stmt" and re.match("^%s$" % same, vs) is not None, fn, fn.loc(x.ast),
+                      "keys is re-bound in create_grid_manager_verifier (%s): the `no keys configured` test would no longer "
+                      "be about the configured grid-manager keys" % (src(fn, val) if val is not None else x.kind))
+
+        def no_keys(x, lab):
+            f = fnorm.edge_fact(x, lab)
+            if not f:
+                return False
+            op, a, b = f
+            if op == "false":
+                return KEYS.match(a) is not None
+            if op == "==":
+                return (a == "0" and LEN.match(b or "") is not None) or (b == "0" and LEN.match(a) is not None) or \
+                    (b in ("[]", "()") and re.match("^%s$" % same, a) is not None) or \
+                    (a in ("[]", "()") and re.match("^%s$" % same, b or "") is not None)
+            if op == "<":
+                return LEN.match(a) is not None and b == "1"
+            if op == "<=":
+                return LEN.match(a) is not None and b == "0"
+            return False
+
+        # the name of the nested predicate is bound by its `def` only
+        rebound = [y for y in cfg.nodes if y.ast is not chk.node and chk.name in {nm for (nms, _v) in _node_bindings(y) for nm in nms}]
+        n_chk = 0
+        for n in cfg.find(is_return):
+            v = fnorm.resolve(n, n.ast.value) if n.ast.value is not None else None
+            if isinstance(v, ast.Name) and v.id == chk.name and not rebound:
+                n_chk += 1
+                r.site(fn, n.ast, "hands out the checking predicate")
+                continue
+            r.site(fn, n.ast, "hands out " + (src(fn, v) if v is not None else "None"))
+            if isinstance(v, ast.Lambda) and isinstance(v.body, ast.Constant) and not v.body.value:
+                continue        # a predicate that never permits: refuses uploads, not this property's concern
+            what = src(fn, v) if v is not None else "None"
+            if v is None or (isinstance(v, ast.Constant) and v.value is None):
+                what = "None (which upload_permitted() reads as `no verifier configured` and answers True)"
+            for (t, w) in find_path_avoiding(cfg, lambda x, _n=n: x is _n, gate_edge=no_keys):
+                r.violation(fn, fn.loc(n.ast), "create_grid_manager_verifier hands out %s instead of the certificate-checking "
+                            "predicate %s() on a path that never established that no grid-manager keys are configured: "
+                            "with keys configured every server would be permitted for upload, certificate or not "
+                            "(path: %s)" % (what, chk.name, w.brief()), w)
+        for (t, w) in find_path_avoiding(cfg, lambda x: x.kind == "exit", gate_node=is_return, gate_edge=no_keys):
+            r.violation(fn, fn.loc(), "create_grid_manager_verifier can fall off its end with keys configured: it returns "
+                        "None, which upload_permitted() reads as `no verifier configured` (path: %s)" % w.brief(), w)
+        if not n_chk:
+            raise AnchorVanished("create_grid_manager_verifier never returns its checking predicate %s" % chk.name)
